@@ -367,7 +367,7 @@ func (p *typeCaseStmt) Then(cb *CodeBuilder, src ...ast.Node) {
 		cb.stk.PopN(n)
 	}
 	if pss.name != "" {
-		if n != 1 { // default, or case with multi expr
+		if n != 1 || typ == types.Typ[types.UntypedNil] { // default, case with multi expr, or case nil
 			typ = pss.xType
 		}
 		name := types.NewParam(token.NoPos, cb.pkg.Types, pss.name, typ)
